@@ -58,8 +58,15 @@ def c10(tier, seed):
         out.append({'line': "A=xvalx; AB=yvaly; alias zz='echo %s'; alias zz" % ref, 'files': {'pargs': PARGS}, 'expect_stdout_not_contains': 'val',
                     'expect_stdout_contains': ref, 'area': 'expand_env:single-quoted-value'})
     # values that contain `$`: inserted values are not scanned again (known: expand_env rescans)
-    for v, ref in (('$A', 'A'), ('${A}', 'A'), ('$1', None), ('a$', None), ('$X', 'X')):
+    for v, ref in (('$A', 'A'), ('${A}', 'A'), ('$X', 'X')):
         out.append({'line': "A=x; X='%s'; ./pargs \"$X\"" % v, 'files': {'pargs': PARGS}, 'expect_stdout': _argv([v]), 'area': 'expand_env:value-with-dollar', 'timeout': 3})
+    # ... but a `$` that does not start a reference to a named variable is not touched by the rescan
+    for v in ('$1', 'a$', '$', 'a$ b', '${2}x', '$0', '100$', '$-'):
+        out.append({'line': "X='%s'; ./pargs \"$X\" \"p${X}\"" % v, 'files': {'pargs': PARGS}, 'expect_stdout': _argv([v, 'p' + v]),
+                    'area': 'expand_env:value-with-plain-dollar', 'timeout': 3})
+        # (followed by name characters the trailing `$` of the value would form a reference when the word is scanned again: known rescan class)
+        out.append({'line': "X='%s'; ./pargs \"p${X}q\"" % v, 'files': {'pargs': PARGS}, 'expect_stdout': _argv(['p' + v + 'q']),
+                    'area': 'expand_env:value-with-dollar', 'timeout': 3})
     return out
 
 
@@ -246,6 +253,7 @@ def c19(tier, seed):
              ('100 / 7', '14'), ('100 / 7 / 2', '7'), ('7 / 2', '3'), ('(0 - 7) / 2', '-3'), ('7 / (0 - 2)', '-3'), ('2 ^ 10', '1024'),
              ('2 ^ 0', '1'), ('1 - 2 * 3', '-5'), ('2 * (3 + 4) * 5', '70'), ('((1))+((2))', '3'), ('8 / 4 / 2', '1'), ('8 / (4 / 2)', '4'),
              ('2 ^ 2 ^ 3', '256'), ('(2 ^ 2) ^ 3', '64'), ('10 - (2 - 3)', '11'), ('1 + 2 - 3 + 4', '4'), ('3 * 4 / 6', '2'), ('3 * (4 / 6)', '0'),
+             ('(1.5 + 1) * 2', '5'), ('2 * (0.25 + 0.25)', '1'), ('(7.0) / 2', '3.5'), ('((1.5)) + 1', '2.5'), ('1 + (2 * (3 + 0.5))', '8'),
              ('1.5 + 1', '2.5'), ('7.0 / 2', '3.5'), ('2 * 1.25', '2.5'), ('1 / 2.0', '0.5'), ('2.0 ^ 3', '8'), ('0.5 + 0.25', '0.75'),
              ('2147483648 + 2147483648', '4294967296'), ('9223372036854775807 + 0', '9223372036854775807'), ('1+2', '3'), ('  1   +   2  ', '3')]
     out = [{'line': l, 'expect_stdout': e + '\n', 'area': 'calculator:precedence', 'timeout': 5} for l, e in cases]
